@@ -39,7 +39,7 @@ FORMS = ["bool", "integer", "float", "string", "choice", "multichoice", "file", 
 
 
 def floors(tier):
-    f = {"files-written": 300, "C14.value": 2500, "C14.enabled": 1500, "C14.json": 300, "C14.promotion": 300, "disabled-parameters": 100, "promoted-identifiers": 200, "second-round-trips": 150}
+    f = {"files-written": 250, "C14.value": 2500, "C14.enabled": 1500, "C14.json": 300, "C14.promotion": 300, "disabled-parameters": 100, "promoted-identifiers": 200, "second-round-trips": 150}
     for k in FORMS:
         f["form:" + k] = 25
     return f
